@@ -252,6 +252,9 @@ var (
 )
 
 func valType(t int) reflect.Type {
+	if IsPlainT(t) {
+		return vTypes[t-TPlain]
+	}
 	if IsSliceT(t) {
 		return reflect.SliceOf(valType(t - TSlice))
 	}
@@ -409,6 +412,9 @@ func nilable(v reflect.Value) bool {
 }
 
 func (w *World) observeSingle(v reflect.Value, t int) ArgObs {
+	if !v.IsValid() {
+		return ArgObs{Bad: "no such field"}
+	}
 	if (nilable(v) && v.IsNil()) || (!nilable(v) && v.IsZero()) {
 		return ArgObs{Zero: true}
 	}
@@ -486,6 +492,12 @@ func (w *World) observeParams(ps []Param, vals func(i int) reflect.Value, out []
 		case PGroup:
 			out = append(out, w.observeGroup(v))
 		case PObj:
+			if p.AnonVal > 0 {
+				// declared object: anonymous plain struct first, then the fields by name
+				out = append(out, w.observeSingle(v.FieldByName(fmt.Sprintf("V%d", p.AnonVal-1)), TPlain+p.AnonVal-1))
+				out = w.observeParams(p.Fields, func(j int) reflect.Value { return v.FieldByName(fmt.Sprintf("F%d", j)) }, out)
+				continue
+			}
 			if p.Hidden != 0 {
 				// declared (catalogue) object with an unexported field in between
 				out = w.observeParams(p.Fields, func(j int) reflect.Value { return v.FieldByName(fmt.Sprintf("F%d", j)) }, out)
